@@ -169,6 +169,22 @@ fn main() {
                     events.extend(evs);
                     script.push(step);
                 };
+                // catalog shapes the verifier has to walk past: tables that exist but hold nothing (a normal one and a
+                // multimap), sorting before and after the tables of the random history
+                for step in [
+                    json!({"e": "bw"}),
+                    json!({"e": "open", "n": "0e", "kind": "t", "kt": "u64", "vt": "u64"}),
+                    json!({"e": "close", "n": "0e"}),
+                    json!({"e": "open", "n": "0m", "kind": "m", "kt": "u64", "vt": "u64"}),
+                    json!({"e": "close", "n": "0m"}),
+                    json!({"e": "open", "n": "zz", "kind": "t", "kt": "bytes", "vt": "bytes"}),
+                    json!({"e": "ins", "n": "zz", "k": 3, "v": 4_000_001}),
+                    json!({"e": "rem", "n": "zz", "k": 3}),
+                    json!({"e": "close", "n": "zz"}),
+                    json!({"e": "commit"}),
+                ] {
+                    run_step(&mut ex, &mut g, step, &mut events, &mut script);
+                }
                 while i < steps {
                     let step = g.next(&mut rng);
                     run_step(&mut ex, &mut g, step, &mut events, &mut script);
